@@ -194,7 +194,7 @@ func (p *Prog) Callees(c *ssa.CallCommon) []*ssa.Function {
 		}
 		// a func-typed local: look through cells / phis to closures
 		var out []*ssa.Function
-		for _, r := range ResolveAll(c.Value) {
+		for _, r := range Sources(c.Value) {
 			switch v := r.(type) {
 			case *ssa.Function:
 				out = append(out, v)
@@ -296,7 +296,7 @@ func (p *Prog) OutEdges(fn *ssa.Function) []CallEdge {
 			// closures handed to higher-order functions run synchronously
 			// inside the call (Once.Do, Map.Range, sort.Slice, Opts)
 			for _, a := range ci.Common().Args {
-				for _, r := range ResolveAll(a) {
+				for _, r := range Sources(a) {
 					if mc, ok := r.(*ssa.MakeClosure); ok {
 						f := mc.Fn.(*ssa.Function)
 						already := false
@@ -436,9 +436,16 @@ func freeVarBinding(fv *ssa.FreeVar) ssa.Value {
 }
 
 // ResolveAll looks through conversions, interface boxing, closure-captured
-// and address-taken cells (all stored values), phis and free variables, and
-// returns the set of underlying values v may denote.
-func ResolveAll(v ssa.Value) []ssa.Value {
+// and address-taken cells (all stored values) and free variables, and returns
+// the set of underlying values v may denote. φ nodes are leaves: a φ is a
+// value of its own (a loop-carried variable, a merge of alternatives).
+func ResolveAll(v ssa.Value) []ssa.Value { return resolveAll(v, false) }
+
+// Sources is ResolveAll that also looks through φ nodes: every value that may
+// flow into v.
+func Sources(v ssa.Value) []ssa.Value { return resolveAll(v, true) }
+
+func resolveAll(v ssa.Value, throughPhi bool) []ssa.Value {
 	seen := map[ssa.Value]bool{}
 	var out []ssa.Value
 	var walk func(v ssa.Value)
@@ -455,6 +462,10 @@ func ResolveAll(v ssa.Value) []ssa.Value {
 		case *ssa.MakeInterface:
 			walk(x.X)
 		case *ssa.Phi:
+			if !throughPhi {
+				out = append(out, v)
+				return
+			}
 			for _, e := range x.Edges {
 				walk(e)
 			}
